@@ -3,7 +3,7 @@
 ID=$1; shift
 unset CARGO_TARGET_DIR
 cd /verif
-git -C /repo apply /verif/seeded/$ID/patch.diff || { echo "APPLY-FAILED $ID"; exit 3; }
+git -C /repo apply /verif/seeded/$ID/patch.diff 2>/dev/null || git -C /repo apply --3way /verif/seeded/$ID/patch.diff || { echo "APPLY-FAILED $ID"; exit 3; }
 for c in "$@"; do
   out=$(VERIF_SEED=${VERIF_SEED:-0} ./check $c quick 2>&1); rc=$?
   echo "seeded-$ID check $c rc=$rc $(echo "$out" | grep -m1 'signature:' | sed 's/^ *//') | $(echo "$out" | tail -1 | cut -c1-120)"
